@@ -1,0 +1,29 @@
+//go:build verif
+
+// Package verifhook provides yield points used only by the external verification harness.
+// With the "verif" build tag, Point calls the installed handler (if any), which may block
+// the calling goroutine until the harness scheduler releases it.
+package verifhook
+
+import "sync/atomic"
+
+// Handler is called at every yield point with the point's name and its arguments.
+type Handler func(name string, args ...string)
+
+var handler atomic.Pointer[Handler]
+
+// Set installs (or, with nil, removes) the yield point handler.
+func Set(h Handler) {
+	if h == nil {
+		handler.Store(nil)
+		return
+	}
+	handler.Store(&h)
+}
+
+// Point marks a named yield point.
+func Point(name string, args ...string) {
+	if h := handler.Load(); h != nil {
+		(*h)(name, args...)
+	}
+}
